@@ -1248,9 +1248,10 @@ AddHeadMulti(const Queue<ItemType> & queue, uint32 startIndex, uint32 numNewItem
    const uint32 hisSize = queue.GetNumItems();
    numNewItems = muscleMin(numNewItems, (startIndex < hisSize) ? (hisSize-startIndex) : 0);
 
-   if ((&queue == this)&&(numNewItems > GetNumUnusedItemSlots()))
+   if (&queue == this)
    {
       // Avoid re-entrancy problems by making a partial copy of myself to prepend back into myself
+      // (always:  even when no reallocation is needed, every AddHead() below would shift the indices we still have to read)
       Queue<ItemType> temp;
       status_t ret;
       return temp.AddTailMulti(queue, startIndex, numNewItems).IsOK(ret) ? AddHeadMulti(temp) : ret;  // yes, AddTailMulti() and then AddHeadMulti() is intentional
